@@ -6,10 +6,13 @@
        no header is ever read where no live entry starts; enqueue loses nothing but a prefix of the OLDEST entries;
        getNextWaiting hands out the oldest waiting entry; confirmation by (entry pointer, entry id) is safe for every pair
        ever handed out, however stale (last theorems of this file).
-   PARTIAL: the two layers are connected by the run-time oracle, not by a Coq refinement (layer 1 identifies entries by id,
-   layer 2 by offset); the capacity clause (N equal-size entries are retained) is evaluated by the oracle only. *)
+   (3) the two layers are connected (Cs104/QueueRefine.v): under the abstraction `absq` (forget the offsets) every ring
+       operation IS the corresponding list operation of Cs104/Server.v, displacement of the D oldest entries being the
+       only difference (last four theorems).
+   PARTIAL: the capacity clause (N equal-size entries are retained) is evaluated by the oracle only; the server model's
+   trace theorems assume the log stays below capacity (D = 0). *)
 From Coq Require Import ZArith List Bool.
-From L60870 Require Import Cs104.Server Cs104.EventLogProofs Cs104.MsgQueue Cs104.MqRingProofs.
+From L60870 Require Import Cs104.Server Cs104.EventLogProofs Cs104.MsgQueue Cs104.MqRingProofs Cs104.QueueRefine.
 Import ListNotations.
 Local Open Scope Z_scope.
 
@@ -92,3 +95,20 @@ Proof. exact mq_reset_waiting_spec. Qed.
 (* live entries lie inside the arena of n * 272 octets *)
 Theorem C06_ring_entries_in_arena : forall q l p, MQInv q l -> In p l -> 0 <= fst p /\ fst p + MqRingProofs.esz (snd p) <= qsize q.
 Proof. exact mq_entries_in_arena. Qed.
+
+(* ---- layer 3: the ring IS the log ----------------------------------------------------------------------------------
+   absq l forgets the offsets of a layout; the operations on the right are those of the server model (Cs104/Server.v). *)
+Theorem C06_refine_enqueue : forall q l a D nx, absq (skipn D l ++ [(nx, new_ent q a)]) =
+  skipn D (absq l) ++ [{| Server.q_id := nid q; Server.q_asdu := a; Server.q_st := Server.QWAIT |}].
+Proof. exact refine_enqueue. Qed.
+Theorem C06_refine_next : forall q l, MQInv q l ->
+  match first_waiting l with
+  | Some (o, e) => Server.mq_next_waiting (absq l) = Some (absent e, absq (upd_at o MsgQueue.QSENT l))
+  | None => Server.mq_next_waiting (absq l) = None
+  end.
+Proof. intros q l H. apply refine_next. apply (inv_offsets_nodup q l H). Qed.
+Theorem C06_refine_confirm : forall q l o id, MQInv q l -> valid_pair q l o id ->
+  absq (confirm_lay q l o id) = Server.mq_mark id (absq l).
+Proof. exact refine_confirm. Qed.
+Theorem C06_refine_reset : forall q l, MQInv q l -> absq (reset_lay l l) = Server.mq_reset_waiting (absq l).
+Proof. intros q l H. apply refine_reset. apply (inv_offsets_nodup q l H). Qed.
